@@ -31,7 +31,7 @@ def names():
 QUICK = {"c03_p_final_01_fi", "c03_p_skip_02_sk", "c03_p_sfallback_01_sk"}
 # kinds whose step harness fits the caps (measured): final, skip, skip-fallback.  notar / notar-fallback steps
 # (count_notar_stake with its safe-to-notar evaluation) exceed 500 s of symbolic execution and are not registered.
-REGISTERED_KINDS = {2, 3, 4}
+REGISTERED_KINDS = {2, 3, 4} | ({0, 1} if os.environ.get("VERIF_EXPERIMENTAL") else set())
 
 if __name__ == "__main__":
     lines = [f"h!({n}, {k}, {own}, [{d[0]}, {d[1]}], {allow}, {'cov_created' if allow else 'cov_none'});" for (n, k, own, d, allow) in names()]
